@@ -5,7 +5,7 @@
 # 4. demo passes without it. Prints a JSON summary.
 set -u
 D="$1"; REL="${2:-}"
-MV=/tmp/mv
+MV=${MV:-/tmp/mv}
 export CARGO_NET_OFFLINE=true
 if [ ! -d $MV ]; then git -C /repo worktree add -q --detach $MV HEAD; cp /repo/Cargo.lock $MV/; fi
 cd $MV
